@@ -666,6 +666,50 @@ theorem C17_exact_reproduces_text (cfg : Setup.Cfg) (hk : cfg.keep = false) (hm 
   rw [ExpandTable.toPin_flatMap items hinert]
   exact hs'
 
+/-- **`C17_exact_actions_blocks`: the TableParse step for tables whose non-setup lines have `if` blocks of their own**
+(flavor blocks and the like).  Scope condition `ExpandTable.expandOK2` (decidable, evaluated by the driver on every real
+expansion): the items of the setup blocks are `itemOK`, and the lines of every non-setup block and of the final block are
+grouped rightly by `ExpandTable.groupPlain` into single lines and `if (var op word) {` … `} else if` … `} else {` … `}` chains
+(the grouping is *checked* — its text is the text written and its items are well formed — not trusted).  Then the reader's
+model applied to the text of the expanded table returns exactly what the written table `tableOf` (those lines and chains, and
+for every setup block the chain `if (type == exact) {` pins `} else {` lines `}` / `if (type != exact) {` lines `}`) denotes —
+every flavor, every list of setup types, no hypothesis on a pre-existing exact block. -/
+theorem C17_exact_actions_blocks (pdir : Option Str) (env : Cond.Env) (hfl : C11Spec.flavorOK env.flavor = true)
+    (A : Answers) (o : Opts) (lines : List Str) (items : List Item)
+    (h : expandItems A o lines = .ok items) (ha : o.addExactBlock = true)
+    (hok : ExpandTable.expandOK2 pdir A o lines = true) (nl : Bool) :
+    ∃ p, ExpandTable.expandParts A o lines = .ok p ∧
+      TableParse.tableActions TableParse.repaired pdir env (ExpandTable.expandedText items nl)
+        = .ok (C11Spec.denoteTable env (C11Spec.tableAbs (ExpandTable.tableOf pdir p))) :=
+  ExpandTable.expand_exact_actions2 pdir env hfl h ha hok nl
+
+/-- **`C17_exact_reproduces_text_blocks`**: `C17_exact_reproduces_text` for tables with blocks of their own — scope
+`expandOK2`; `Inert` in the form `ExpandTable.expandInert2` (for this flavor, no non-setup block and no line of the final
+block denotes a setup / unsetup command). -/
+theorem C17_exact_reproduces_text_blocks (cfg : Setup.Cfg) (hk : cfg.keep = false) (hm : cfg.maxDepth = none) (fuel : Nat)
+    (top : Setup.Decl) (s : Setup.St)
+    (pdir : Option Str) (env : Cond.Env) (hfl : C11Spec.flavorOK env.flavor = true)
+    (hex : env.types.contains ExpandTable.sExactW = true)
+    (A : Answers) (o : Opts) (lines : List Str) (items : List Item)
+    (h : expandItems A o lines = .ok items) (hn : noExactLine A o lines = true) (ha : o.addExactBlock = true)
+    (hok : ExpandTable.expandOK2 pdir A o lines = true) (hinert : ExpandTable.expandInert2 pdir env A o lines = true)
+    (hsound : DepsSound A) (hpins : ∀ n v, A.pin n = some v → A.sv n = some v)
+    (hcov : ∀ st, readAll A o lines = .ok st → Covered A o st)
+    (hdecl : ∀ n v, A.sv n = some v → declaredS cfg n v = true)
+    (hclean : ∀ n, o.toplevel ≠ some n → Setup.aget s.already n = none ∧ s.env.rec? n = none)
+    (htop : ∀ v, ∀ n, o.toplevel = some n → (n, v) ∉ (items.filterMap pinKey).map (·.2)) (nl : Bool) :
+    ∃ acts s', TableParse.tableActions TableParse.repaired pdir env (ExpandTable.expandedText items nl) = .ok acts ∧
+      acts.filterMap ExpandTable.toPin = items.filterMap pinKey ∧
+      Setup.acts (Setup.setup cfg (fuel + 1)) cfg true 0 false exactVro top ((acts.filterMap ExpandTable.toPin).map pinAct) s = .ok s' ∧
+      ∀ n, o.toplevel ≠ some n → recNames s'.env n = A.sv n := by
+  obtain ⟨s', hs', hrec⟩ := C17_exact_reproduces_over_Setup cfg hk hm fuel top s A o lines items h hn ha hsound hpins hcov hdecl
+    hclean htop
+  obtain ⟨p, hp, hact⟩ := ExpandTable.expand_exact_actions2 pdir env hfl h ha hok nl
+  obtain ⟨p', hp', hpin⟩ := ExpandTable.expand_pins2 pdir env hex h ha hok hinert
+  rw [hp] at hp'
+  cases hp'
+  exact ⟨_, s', hact, hpin, by rw [hpin]; exact hs', hrec⟩
+
 /-! ## concrete instances: the hypotheses are satisfiable, the theorems are not vacuous; negation witnesses -/
 
 /-- string literal as a list of code points -/
@@ -856,6 +900,16 @@ example : TableParse.tableActions TableParse.repaired none exactEnv1 (ExpandTabl
     (fun it hit => by
       have : items1flat.all (fun it => ExpandTable.itemOK none it) = true := by decide +kernel
       exact List.all_eq_true.mp this it hit) true
+
+/-- `C17_exact_actions_blocks` is not vacuous: the whole example table `T1` — with its `if (flavor == Linux) {` block — is in
+scope (`expandOK2`, `expandInert2`), and its expanded text yields, for flavor Linux in exact mode, the `envPrepend` action, the
+three pin actions and the `envSet` of the flavor block. -/
+example : ExpandTable.expandOK2 none D1.toAnswers o1 T1 = true ∧ ExpandTable.expandInert2 none exactEnv1 D1.toAnswers o1 T1 = true := by
+  decide +kernel
+example : (match ExpandTable.expandParts D1.toAnswers o1 T1 with
+    | .ok p => (C11Spec.denoteTable exactEnv1 (C11Spec.tableAbs (ExpandTable.tableOf none p))).map (·.cmd)
+        == [str! "envPrepend", str! "setupRequired", str! "setupRequired", str! "setupRequired", str! "envSet"]
+    | .error _ => false) = true := by decide +kernel
 
 /-- **`inertItem` cannot be dropped (observation O2).**  The expander recognises `setupRequired(` spelled exactly so; the
 table parser allows blanks before the parenthesis.  `setupRequired (x)` is passed through outside every block, the item is
